@@ -15,9 +15,52 @@ from fractions import Fraction as Fr
 
 from . import core
 
+def encode_const(case, res):
+    """constattr cases (the metadata function cannot be built): Variable-level cells only, check_case_const.
+    Constant symbol j is entry nparams + j of the valuation."""
+    slot, _ = slots_of(case, res["params"])
+    n = sum(sh[0] * sh[1] for _, sh in res["params"])
+    D = declared(case)
+    cnames = [o["name"] for o in res["cats"]["constants"]]
+    for j, nm in enumerate(cnames):
+        slot[(nm, None)] = n + j
+        slot[(nm, 0)] = n + j
+
+    def term(d):
+        if d is None:
+            return "DNone"
+        if d["k"] == "lit":
+            return "DLit %s" % cq_lit(decl_elems(d, 1, [])[0])
+        if d["k"] == "exp":
+            return "DExp %s" % cq_tree_(d["e"], slot)
+        raise NoEncoding()
+    cats = []
+    for cat in CATS:
+        vs = []
+        for o in res["cats"][cat]:
+            v = D[o["name"]]
+            br = " ".join("| %s => %s" % (COQ_ATTR[a], term(v["attrs"].get(a))) for a in ATTRS)
+            vs.append("(Var %s %d%%nat (fun a => match a with %s end))" % (VT.get(o["ptype"], "TReal"), o["numel"], br))
+        cats.append("[%s]" % "; ".join(vs))
+    cs = []
+    for nm in cnames:
+        d = D[nm]["attrs"]["value"]
+        cs.append(cq_tree_(d["e"], slot) if d["k"] == "exp" else "(Cst %s)" % cq_qc(decl_elems(d, 1, [])[0][1]))
+    pts = []
+    for pi, pv in enumerate(case["pvs_exact"]):
+        vec = []
+        for nm, _ in res["params"]:
+            vec += [fr(x) for x in pv[nm]]
+        vm = "[%s]" % "; ".join("[%s]" % "; ".join("[%s]" % "; ".join(cq_ext(o["attrs"][a]["vals"][pi][k]) for a in ATTRS)
+                                                   for o in res["cats"][cat] for k in range(o["numel"])) for cat in CATS)
+        pts.append("([%s], %s)" % ("; ".join(cq_qc(x) for x in vec), vm))
+    return "([%s], [%s], %d%%nat, true, [%s])" % ("; ".join(cats), "; ".join(cs), n, "; ".join(pts))
+
+
 THEOREMS = ["C13_defaults", "C13_values", "C13_variable_attributes", "C13_affine_rebuild",
             "C13_types", "C13_substitute", "C13_values_steps", "C13_vector_elements",
-            "C13_test_sound_partial", "C13_values_test", "C13_numeric_test_refuted", "C13_blockdiag_test_refuted", "C13_example"]
+            "C13_test_sound_partial", "C13_values_test", "C13_numeric_test_refuted", "C13_blockdiag_test_refuted", "C13_example",
+            "C13_variable_attributes_constants", "C13_values_no_constants", "C13_metadata_function_constants_refuted"]
 
 ATTRS = ["value", "min", "max", "start", "fixed", "nominal"]       # documented column order
 COQ_ATTR = {"value": "AValue", "min": "AMin", "max": "AMax", "start": "AStart",
@@ -1262,6 +1305,11 @@ def const_attr(case):
 
 
 def judge_one(case, res, later=False):
+    if "meta_exc" in res:
+        if const_attr(case) and "free" in res["meta_exc"]:
+            return ("constant-dependent-attribute-free-variable",
+                    "variable_metadata_function cannot be built: %s" % res["meta_exc"][-140:].replace("\n", " "))
+        return ("exception", "variable_metadata_function raised: %s" % res["meta_exc"][-200:])
     if "crash" in res:
         return ("crash", "interpreter crashed (rc=%s)" % res["crash"])
     if "exc" in res:
@@ -1711,6 +1759,7 @@ def run(ctx):
     dist = {"kinds": {}, "via": {}, "opts": {}, "rebuilt": 0, "decl_kinds": {}, "var_types": {}, "impl_exceptions": 0}
     nontrivial = set()
     enc, idx = [], []
+    enc_c, idx_c = [], []
     skipped_points = 0
     for i, (c, r) in enumerate(zip(cases, results)):
         dist["kinds"][c["kind"]] = dist["kinds"].get(c["kind"], 0) + 1
@@ -1728,6 +1777,13 @@ def run(ctx):
             core.report(ctx, verdict[0], verdict[1], {"input": c, "observed": r if "exc" in r or "crash" in r else {"rebuilt": r.get("rebuilt")}})
         if "exc" in r or "crash" in r:
             dist["impl_exceptions"] += 1
+            continue
+        if "meta_exc" in r:
+            try:
+                enc_c.append(encode_const(c, r))
+                idx_c.append(i)
+            except (NoEncoding, KeyError):
+                skipped_points += 1
             continue
         r0 = r
         obs = r["stages"] if "stages" in r else [r]
@@ -1756,6 +1812,16 @@ def run(ctx):
                        {"correspondence": "Model/C13_metadata.v check_case vs generate()/variable_metadata_function",
                         "input": cases[mism[0]]}, no_input=True)
 
+    if enc_c:
+        badc = core.coq_eval_cases(ctx, "const", PREAMBLE + "From PV Require Import Model.C13_const.\n",
+                                   "model * list aexp * nat * bool * list (list Qc * list (list (list ext)))",
+                                   enc_c, "check_case_const", shard=20, timeout=300)
+        ctx.oblige("correspondence:constants-variable-level (check_case_const)", badc == [],
+                   "mismatching cases: %s" % ([idx_c[j] for j in badc][:10] if badc is not None else "coqc failed"))
+        if badc and not [v for v in ctx.violations if not v["no_input"]]:
+            core.violation(ctx, "correspondence-broken", {"correspondence": "check_case_const", "input": cases[idx_c[badc[0]]]},
+                           no_input=True)
+    dist_const = len(enc_c)
     # ---- S4 known findings
     def still_fails(e):
         c = e["replay"]["input"]
@@ -1771,6 +1837,7 @@ def run(ctx):
                        % (", ".join("%s x%d" % m for m in mix), n_corpus))
     ctx.cov["samples"] = [cases[n_corpus]["text"], cases[-1]["text"]] if len(cases) > n_corpus else []
     dist["correspondence_cases"] = len(enc)
+    dist["constant_cases_variable_level"] = dist_const
     dist["not_encoded"] = skipped_points
     ctx.notes["input_distribution"] = dist
     ctx.assumptions += [
